@@ -495,6 +495,15 @@ pub fn worker(w: &WorkerArgs) -> i32 {
             w.trace_case(|| json!({"kind": "hostile", "source": print(e, Mode::Minimal), "context": ctx_to_json(ctx)}));
             check_hostile_expr(e, ctx, *salt, l)
         }),
+        "hostile_chains" => run_family(&rep, &fam, quick(24_000), || (super::c04::chain_strategy(5), prop::collection::vec(hostile_ctx(stmtgen::NAMES), 2), any::<u64>()), |(spec, ctxs, salt), l| {
+            // generated inheritance chains (block trees, overrides, nested fresh blocks, super() in any position, blocks in captures
+            // and component-call bodies): every template is an entry point, every block is rendered alone
+            let (tpls, order, names) = super::c04::chain_sources(spec);
+            w.trace_case(|| json!({"kind": "hostile", "templates": tpls, "contexts": ctxs.iter().map(ctx_to_json).collect::<Vec<_>>()}));
+            l.label("set:c04-chain");
+            let blocks: Vec<(String, String)> = order.iter().zip(&names).flat_map(|(t, bs)| bs.iter().map(move |b| (t.clone(), b.clone()))).collect();
+            check_hostile_set(&tpls, &order, &blocks, &["Wrap".to_string()], ctxs, *salt, l)
+        }),
         "inheritance_and_components" => run_family(&rep, &fam, quick(32_000), || (prop::collection::vec(hexpr(), 4), prop::collection::vec(hostile_ctx(HVARS), 2), any::<u64>()), |(es, ctxs, salt), l| {
             let p = |i: usize| print(&es[i], Mode::Minimal);
             let tpls = vec![
@@ -593,6 +602,7 @@ pub fn run(rep: &Report) {
     run_in_workers(rep, "hostile_expr_c02", 16, 600, on_abnormal("hostile_expr_c02"));
     run_in_workers(rep, "hostile_programs", 16, 600, on_abnormal("hostile_programs"));
     run_in_workers(rep, "inheritance_and_components", 16, 600, on_abnormal("inheritance_and_components"));
+    run_in_workers(rep, "hostile_chains", 16, 600, on_abnormal("hostile_chains"));
     run_in_workers(rep, "big_values", 7, 600, on_abnormal("big_values"));
     for b in BUILTINS {
         let lab = match b.kind {
@@ -602,7 +612,7 @@ pub fn run(rep: &Report) {
         };
         rep.floor(&lab, 500);
     }
-    for (lab, min) in [("render:ok", 100_000), ("render:error", 100_000), ("hostile:bytes", 50_000), ("hostile:float", 50_000), ("hostile:map", 50_000), ("hostile:int", 50_000), ("injection:rejected", 5_000), ("injection:control-accepted", 5_000), ("injection:render_str", 500), ("api:render_block", 10_000), ("api:render_component", 10_000), ("big-value", 300)] {
+    for (lab, min) in [("render:ok", 100_000), ("render:error", 100_000), ("hostile:bytes", 50_000), ("hostile:float", 50_000), ("hostile:map", 50_000), ("hostile:int", 50_000), ("injection:rejected", 5_000), ("injection:control-accepted", 5_000), ("injection:render_str", 500), ("api:render_block", 10_000), ("api:render_component", 10_000), ("big-value", 300), ("set:c04-chain", 10_000)] {
         rep.floor(lab, min);
     }
 }
